@@ -134,7 +134,8 @@ type UnV struct {
 // MakeIfaceV: interface holding X (dynamic type = X's static type).
 type MakeIfaceV struct {
 	base
-	X Val
+	X   Val
+	Dyn types.Type // dynamic type: the static type of the operand at the MakeInterface instruction
 }
 
 // ConvV: conversion (Convert, ChangeInterface, SliceToArrayPointer).
@@ -532,10 +533,13 @@ func isNumKind(c constant.Value) bool {
 	return c.Kind() == constant.Int || c.Kind() == constant.Float
 }
 
-func mkIface(x Val, t types.Type) Val {
-	v := &MakeIfaceV{X: x}
+func mkIface(x Val, t types.Type, dyn types.Type) Val {
+	v := &MakeIfaceV{X: x, Dyn: dyn}
 	v.typ = t
-	v.key = "iface(" + x.Key() + ":" + typeStr(x.Type()) + ")"
+	if dyn == nil {
+		v.Dyn = x.Type()
+	}
+	v.key = "iface(" + x.Key() + ":" + typeStr(v.Dyn) + ")"
 	return v
 }
 
